@@ -105,4 +105,10 @@ META = {
         "note": "bindings source is included with #[path] so that the working tree's code runs and private fields are readable",
         "technique": "runtime monitoring: mirror oracle against the core API + reference fold",
     },
+    "C17": {
+        "text": "Metamorphic monitor: four families of meaning-preserving edits (CRLF, trailing comment/spaces, block comment in a gap, extra blank/comment lines), applied exhaustively at every eligible insertion point of generated well-formed recipes and (CRLF) to fuzz inputs; the two parses must agree up to white space in step text.",
+        "design_ref": "DESIGN.md §6 C17",
+        "note": "independent of the reference semantics of C01: only pairs of parser outputs are compared",
+        "technique": "runtime monitoring: metamorphic oracle over pairs of executions",
+    },
 }
